@@ -55,11 +55,14 @@ class World:
         self.watch_prefixes = (_os.path.dirname(self.dbpath), _tempfile.gettempdir())
 
     def disk(self):
+        _ACTIVE["in_proxy"] += 1  # the harness's own read must not be mistaken for I/O by tinyflux
         try:
             with builtins.open(self.dbpath, "rb") as f:
                 return f.read()
         except FileNotFoundError:
             return None
+        finally:
+            _ACTIVE["in_proxy"] -= 1
 
     def step(self, kind, role, do, text=None):
         if not self.armed:
@@ -173,8 +176,11 @@ def install(world):
             return getattr(_shutil, n)
 
         def _copy(self, src, dst, label):
-            with builtins.open(src, "rb") as f:
-                data = world._raw(f.read)
+            def _read():
+                with builtins.open(src, "rb") as f:
+                    return f.read()
+
+            data = world._raw(_read)
             role = role_of(dst)
             out = world.step(label + ".open", role, lambda: builtins.open(dst, "wb", buffering=0))
             h = len(data) // 2
